@@ -18,6 +18,8 @@ use tracing::{debug, error};
 
 #[cfg(test)]
 use sparkle_unix_common::client_sync::UnixStream;
+#[cfg(all(feature = "verif-hooks", not(test)))]
+use sparkle_unix_common::client_sync::UnixStream;
 
 pub enum RequestOptions {
     Main {
@@ -28,6 +30,12 @@ pub enum RequestOptions {
         socket: Option<UnixStream>,
         users: Vec<EtcUser>,
         // groups: Vec<EtcGroup>,
+        shadow: Vec<EtcShadow>,
+    },
+    #[cfg(feature = "verif-hooks")]
+    Verif {
+        socket: Option<UnixStream>,
+        users: Vec<EtcUser>,
         shadow: Vec<EtcShadow>,
     },
 }
@@ -84,6 +92,20 @@ impl RequestOptions {
                 socket,
                 users,
                 // groups,
+                shadow,
+            } => {
+                if let Some(socket) = socket {
+                    let client = DaemonClientBlocking::from(socket);
+                    let _ = CLIENT.replace(Some(client.clone()));
+                    Source::Daemon(client)
+                } else {
+                    Source::Fallback { users, shadow }
+                }
+            }
+            #[cfg(feature = "verif-hooks")]
+            RequestOptions::Verif {
+                socket,
+                users,
                 shadow,
             } => {
                 if let Some(socket) = socket {
